@@ -398,7 +398,7 @@ func (g *gen) symbol() slip.Object {
 
 var safeSymbols = []string{"foo", "bar", "a", "x1", "car", "Foo", "FOO", "fooBar", "a-b", "*x*", "+", "-", "1+", "a.b", "...", "<=", "a:b", "$v", "%", "=", "~a", "^", "_",
 	"tt", "nile", ":key", ":Key", ":", ":1", "quote", "lambda", "u", "defun", "&rest", "a@b", "x/y"}
-var safePipeSymbols = []string{"a b", "a(b", "(", ")", "'", "a'b", "\"", ";", "a;b", "#", "a#", ",", "`", "a&b", "[", "]", "{", "}", "!", "a!", "A B", "Hello World", "x y z", "", "123", "-5", "1.", "1e5", "1d0", "1/2", "2s3"}
+var safePipeSymbols = []string{"a b", "a(b", "(", ")", "'", "a'b", "\"", ";", "a;b", "#", "a#", ",", "`", "a&b", "[", "]", "{", "}", "!", "a!", "A B", "Hello World", "x y z", "", "123", "-5", "1.", "1e5", "1d0", "1/2", "2s3", "a|b", "|", "a\\b", "\\", "a\x01b", "a\tb", "x|y z"}
 
 func (g *gen) safeAtom() slip.Object {
 	r := g.rng()
@@ -870,6 +870,13 @@ func repairedCases() (out []repairedCase) {
 	}
 	out = append(out, repairedCase{"C03-4", pretty, slip.NewArray([]int{2, 2}, slip.TrueSymbol, nil,
 		slip.List{slip.List{slip.Symbol("a b"), slip.Symbol("")}, slip.List{slip.Symbol("("), slip.Symbol("&rest")}}, false)})
+	// C03-5: | \ and control characters inside names that get bars
+	for _, name := range []string{"a|b", "|", "||", "a\\b", "\\", "\\|", "|\\", "a\x01b", "\x00", "\x1f x", "a\tb|", "a\nb\\", "\x7f|", "a b\\n", "\\u0041 x", "x|y|z", "A|B c"} {
+		for _, c := range []cfg{flat, pretty, with(flat, func(c *cfg) { c.pcase = "up" }), with(pretty, func(c *cfg) { c.pcase = "cap"; c.margin = 5 }), with(flat, func(c *cfg) { c.pcase = "none"; c.readably = false })} {
+			out = append(out, repairedCase{"C03-5", c, slip.Symbol(name)})
+			out = append(out, repairedCase{"C03-5", c, slip.List{slip.Symbol(name), slip.Symbol("x"), slip.Tail{Value: slip.Symbol(name)}}})
+		}
+	}
 	return
 }
 
